@@ -734,7 +734,58 @@ fn check_forest(ctx: &mut Ctx, f: &Forest, r: &mut Rng, known_stream: bool) {
     ctx.sample(if exhaustive { "forest.small" } else { "forest.large" }, || json!({"subsets": subsets.len(), "model": model()}));
 }
 
+/// Minimal witness for the known finding: one unit, two top-level variables, e0's
+/// DW_AT_location refers to e1 through one operation of `kind`; required = {e0}.
+fn witness_forest(enc: Enc, kind: EdgeKind) -> Option<Forest> {
+    let mut dw = write::Dwarf::new();
+    let mut unit = write::Unit::new(enc.encoding(), write::LineProgram::none());
+    let root = unit.root();
+    unit.get_mut(root).set(c::DW_AT_name, AttributeValue::String(b"root0".to_vec()));
+    let e0 = unit.add(root, c::DW_TAG_variable);
+    let e1 = unit.add(root, c::DW_TAG_variable);
+    unit.get_mut(e0).set(c::DW_AT_name, AttributeValue::String(b"u0e0".to_vec()));
+    unit.get_mut(e1).set(c::DW_AT_name, AttributeValue::String(b"u0e1".to_vec()));
+    let uid = dw.units.add(unit);
+    let target = write::DebugInfoRef::Entry(uid, e1);
+    let mut e = write::Expression::new();
+    match kind {
+        EdgeKind::ExprImplicitPointer => e.op_implicit_pointer(target, 0),
+        EdgeKind::ExprVariableValue => e.op_variable_value(target),
+        EdgeKind::ExprNested => {
+            let mut inner = write::Expression::new();
+            inner.op_call_ref(target);
+            e.op_entry_value(inner);
+        }
+        EdgeKind::ExprCallRef => e.op_call_ref(target),
+        _ => return None,
+    }
+    dw.units.get_mut(uid).get_mut(e0).set(c::DW_AT_location, AttributeValue::Exprloc(e));
+    let secs = write_dwarf(&mut dw, enc.endian()).ok()?;
+    let nodes = vec![
+        Node { unit: 0, k: 0, tag: c::DW_TAG_variable, parent: None, name: "u0e0".into() },
+        Node { unit: 0, k: 1, tag: c::DW_TAG_variable, parent: None, name: "u0e1".into() },
+    ];
+    Some(Forest { enc, nunits: 1, nodes, edges: vec![Edge { from: 0, to: 1, kind, in_loclist: false }], secs })
+}
+
 pub fn run(ctx: &mut Ctx) {
+    // minimal witnesses of the known finding (and the control: call_ref, which is followed)
+    for (i, kind) in [EdgeKind::ExprCallRef, EdgeKind::ExprImplicitPointer, EdgeKind::ExprVariableValue, EdgeKind::ExprNested].into_iter().enumerate() {
+        if !ctx.want_hashed("known.witness", i as u64) {
+            continue;
+        }
+        let enc = Enc::new(true, false, 5, 8);
+        if let Some(f) = witness_forest(enc, kind) {
+            let mut r = ctx.rng("known.witness", i as u64);
+            let before = ctx.obs.get("known.filtered.err.conv.InvalidDebugInfoRef").copied().unwrap_or(0);
+            check_forest(ctx, &f, &mut r, kind.unfollowed() && SKIP_UNFOLLOWED_EXPR_EDGES);
+            let after = ctx.obs.get("known.filtered.err.conv.InvalidDebugInfoRef").copied().unwrap_or(0);
+            ctx.obs(&format!("known.witness.{}.{}", kind.name(), if after > before { "InvalidDebugInfoRef" } else { "ok" }));
+            if after > before {
+                ctx.sample("known.witness", || json!({"edge": kind.name(), "required": ["u0e0"], "expected_output": ["u0e0", "u0e1"], "observed": "convert_with_filter + ConvertUnit::convert fails with ConvertError::InvalidDebugInfoRef; write::Dwarf::from on the same sections succeeds", "sections": f.secs.json()}));
+            }
+        }
+    }
     // small forests: exhaustive subsets
     let n_small = ctx.size(260, 2600, 4);
     for i in 0..n_small {
